@@ -143,7 +143,32 @@ enum ArrayElement {
 type RuntimeObjectList = Vec<Rc<dyn RTObject>>;
 type RuntimeObjectListResult = Result<(RuntimeObjectList, Option<ArrayElement>), StoryError>;
 
+/// Nesting allowed in a story document: the same limit the default (serde) loader applies,
+/// so that a deeply nested document is an error under both loaders instead of a stack overflow here.
+const MAX_NESTING: usize = 128;
+
 fn jtoken_to_runtime_object(
+    tok: &mut JsonTokenizer,
+    value: JsonValue,
+    name: Option<String>,
+) -> Result<ArrayElement, StoryError> {
+    let nested = matches!(value, JsonValue::Array | JsonValue::Object);
+    if nested {
+        tok.depth += 1;
+        if tok.depth > MAX_NESTING {
+            return Err(StoryError::BadJson(
+                "Story document is nested too deeply".to_owned(),
+            ));
+        }
+    }
+    let result = jtoken_to_runtime_object_unguarded(tok, value, name);
+    if nested {
+        tok.depth -= 1;
+    }
+    result
+}
+
+fn jtoken_to_runtime_object_unguarded(
     tok: &mut JsonTokenizer,
     value: JsonValue,
     name: Option<String>,
